@@ -191,6 +191,19 @@ PROPS = {
         "assumptions": ["relative-error bounds (1e-9 default, 1e-5 fast, 1% line) are properties of float64 evaluation and are sampled; coordinates are float64 so an absolute slack of 1e-8 m is allowed"],
         "partial_notes": ["equirectangular 1e-5 accuracy bound and DistanceToLine's 1% bound: sampled only"],
     },
+    "C14": {
+        "props": "TrackVerif.LT.PropsC14",
+        "streams": [("LT", 500, 6000)],
+        "clauses": ["lt.returns", "lt.no_crash", "lt.no_leak", "lt.fault_reported", "lt.spurious_error", "lt.complete", "lt.prefix", "lt.write_count", "lt.protocol_model"],
+        "rule": "real laptimer.Encoder.Encode against a writer failing from its k-th Write (k over 0..W+2 and none; every index of one two-buffer document in the corpus), documents 0..400 laps with 0..5000-byte "
+                "fields (a few bytes to ~100 pipe buffers), plain and gzip, GOMAXPROCS 1/2/4/16, Gosched in the writer; 5 s watchdog; goroutine count before/after; delivered bytes must be a prefix of / equal the fault-free output; "
+                "fault-free write count must equal the model's totalWrites and the model's outcome under a fair schedule must equal the implementation's",
+        "trusted_base": KERNEL + TIE + ["io.Pipe / bufio / xml.Encoder behave as their documented contract, which is what the transition system encodes (a pipe Write returns only when fully read or the read side is closed; "
+                                        "CloseWithError wakes the peer); the Go scheduler, real time and the race detector are outside the model",
+                                        "5 s watchdog = 'blocked forever'"],
+        "assumptions": ["gzip: the model counts one output write per filter write plus one at Close; compress/gzip buffers internally, so for gz=1 the write-count correspondence is not checked, only the returned error / completeness / no-hang / no-leak spec"],
+        "partial_notes": ["'bounded time' is proved as: every schedule is finite (measure) and every stuck state is a returned state; wall-clock bounds and the race detector are sampled only"],
+    },
     "C19": {
         "props": "TrackVerif.Geo.PropsC19",
         "streams": [("GE", 2400, 40000)],
